@@ -11,7 +11,9 @@ THEOREMS = [(M, "NQ.C14." + n) for n in [
     "depth_bound", "long_run_compiles", "fresh_has_16", "temps_disjoint", "temps_disjoint_code", "temps_disjoint_pick",
     "f17_if_ez_40", "f17_loop_until_20", "need_tight_16",
     "explicit_register_protected", "explicit_register_in_use_rejected",
-    "balanced_epr", "epr_leak_witness", "epr_forms_completed", "epr_sequence_compiles"]] + [
+    "balanced_epr", "epr_leak_witness", "epr_forms_completed", "epr_sequence_compiles",
+    "meas_registers_released_at_flush", "meas_balanced", "reg_outcome_takes_one", "meas_compiles",
+    "meas_sequence_compiles", "meas_budget_example"]] + [
     ("NetqasmVerif.Props.EprRegsObligations", "NQ.EprRegs." + n) for n in ["eprForms_balanced", "eprForms_peak",
                                                                              "eprForms_nonempty"]]
 TRANSLATORS = ["epr_regs"]
@@ -72,6 +74,11 @@ def _leak_check(H, prog, res, what):
                         "active_before": before, "stream": what}
             return {"what": "the real SDK raised %s compiling operation %d" % (kind, step), "kind": kind,
                     "step": step, "op": t, "stream": what}
+        if t["k"] == "flush":
+            still = sorted(x.index for x, u in r.mm._used_meas_registers.items() if u)
+            if still:
+                return {"what": "measurement (M) registers are still taken after a flush", "step": step,
+                        "meas_registers_in_use": still, "op": t, "stream": what}
         after = sorted(x.index for x in r.mm._active_registers)
         if t["k"] != "reg" and after != before:
             return {"what": "completed operation leaked/released registers", "step": step, "op": t,
@@ -82,6 +89,19 @@ def _leak_check(H, prog, res, what):
 
 def _shrink_leak(H, f):
     """Minimal host operation that still leaks, repeated until the pool is empty."""
+    if "meas_registers_in_use" in f:
+        # M bank: one register outcome per subroutine, until compiling fails
+        f = dict(f)
+        f["minimal"] = [{"k": "qop", "g": [], "t": {"k": "reg"}}]
+        p = []
+        for n in range(1, 40):
+            p = p + f["minimal"] + [{"k": "flush"}]
+            r = H.RealRun(execute=False).run(p)
+            if r.err is not None:
+                f["fails_at_repetition"] = n
+                f["error"] = r.err
+                break
+        return f
     op = f["op"]
 
     def leaks(cand):
@@ -150,7 +170,11 @@ def run(ctx):
         x for _ in range(20) for x in (
             {"k": "until", "n": 2, "body": [{"k": "qop", "g": [], "t": {"k": "fut", "f": {"a": 0, "i": 0}}}],
              "ef": {"f": {"a": 0, "i": 0}}, "ev": 0, "cl": []}, {"k": "flush"})]
-    for w, name in ((w1, "corpus-if_ez-on-future"), (w2, "corpus-loop_until")):
+    w3 = [x for _ in range(40) for x in ({"k": "qop", "g": [], "t": {"k": "reg"}}, {"k": "flush"})]
+    w4 = [x for _ in range(3) for x in ([{"k": "qop", "g": [0], "t": {"k": "reg"}}] * 16 + [{"k": "flush"}])]
+    w4 = [y for x in w4 for y in (x if isinstance(x, list) else [x])]
+    for w, name in ((w1, "corpus-if_ez-on-future"), (w2, "corpus-loop_until"),
+                    (w3, "corpus-40-register-outcomes"), (w4, "corpus-16-register-outcomes-per-subroutine")):
         correspond(w, name)
         f = _leak_check(H, w, res, name)
         if f:
